@@ -212,8 +212,13 @@ def check_server(case):
     return fails[:2]
 
 
+BAD_LOCATIONS = [b"http://h:99999/", b"http://h:abc/x", b"http://[::1/", b"http://h:-1/", b"http://]/", b"//[/",
+                 b"http://h:80:90/", b"//h:65536", b"http://[]/", b"http://h:0x50/", b"http://h: 80/", None]
+
+
 def run_client(case):
-    patron, cs = http_doubles.make_patron(method="GET", path="/", redirectable=False)
+    # (a redirectable client only in the cases whose redirect cannot be followed: no or a malformed Location)
+    patron, cs = http_doubles.make_patron(method="GET", path="/", redirectable=bool(case.get("redirectable")))
     patron.request(method=case["reqmethod"], path="/p")
     arr, last = arrivals(case["sched"], bytes(case["data"]))
     close = case["close"]
@@ -291,6 +296,18 @@ def server_case(draw):
 
 @st.composite
 def client_case(draw):
+    if draw(st.integers(0, 7)) == 0:
+        # a redirect that cannot be followed, received by a redirectable client: no Location at all (legal for 300) or a
+        # Location that is no URL (port not a number / out of range, unbalanced brackets; all rejected by urlsplit)
+        loc = draw(st.sampled_from(BAD_LOCATIONS))
+        code = draw(st.sampled_from([b"300 Multiple Choices", b"301 Moved Permanently", b"302 Found", b"303 See Other",
+                                     b"307 Temporary Redirect"]))
+        body = draw(st.sampled_from([b"", b"moved"]))
+        wire = b"HTTP/1.1 " + code + b"\r\n" + (b"Location: " + loc + b"\r\n" if loc is not None else b"") + \
+            b"Content-Length: %d\r\n\r\n" % len(body) + body
+        return {"scene": "client", "data": wire, "mut": "redirect-no-location" if loc is None else "redirect-bad-location",
+                "nt": True, "reqmethod": "GET", "redirectable": True, "sched": draw(schedule(len(wire))),
+                "close": draw(st.one_of(st.none(), st.integers(0, 2)))}
     if draw(st.integers(0, 6)) == 0:
         body = draw(st.sampled_from(SSE_BODIES))
         head = b"HTTP/1.1 200 OK\r\nContent-Type: text/event-stream\r\n"
